@@ -163,7 +163,7 @@ func (f *Frame) orderCheck(li *LoopInfo) {
 		return
 	}
 	coll := f.get(rng.X).T
-	mark := e.body.Len()
+	mark := len(e.lines)
 	e.mute++
 	e.orderMode = true
 	defer func() {
@@ -379,9 +379,7 @@ func (f *Frame) orderCheck(li *LoopInfo) {
 	}
 	e.mute++
 	// the four body encodings are only needed by the obligations above
-	trimmed := e.body.String()[:mark]
-	e.body.Reset()
-	e.body.WriteString(trimmed)
+	e.lines = e.lines[:mark]
 }
 
 // valueEq: equality of two values of a Go type, looking through slices.
